@@ -197,6 +197,12 @@ def _to_str_list(n):
         h.check("C10.to_str_list.returns_list_of_strings", ok, "%r" % (r,))
         if not ok:
             return
+        if n and not log:
+            # the list is printed by some other route than the pair printer: nothing can be said through that function's contract
+            # (a checker error, exit 3 - never a violation)
+            from pyvc.core import Unsupported
+
+            raise Unsupported("to_str_list does not print through polyhedral_term_list_to_strings: the contract has to be restated")
         # every constraint is printed exactly once: the printer is first given all the terms in order, then what it left, until
         # nothing is left; the strings come back in that order
         h.check("C10.to_str_list.strings_in_printing_order", r.items == [l[2] for l in log], "%r" % (r.items,))
@@ -257,6 +263,10 @@ def c_to_dict(h):
     if out.kind != "return":
         return
     h.cover("return")
+    if not made:
+        from pyvc.core import Unsupported
+
+        raise Unsupported("to_dict does not print through PolyhedralTermList.to_str_list: the contract has to be restated")
     d = _dict_of(h, out.value, ["input_vars", "output_vars", "assumptions", "guarantees"])
     h.check("C10.to_dict.has_exactly_the_four_fields", d is not None, "%r" % (out.value,))
     if d is None:
@@ -306,6 +316,10 @@ def c_compound_to_dict(h):
     if out.kind != "return":
         return
     h.cover("return")
+    if not made:
+        from pyvc.core import Unsupported
+
+        raise Unsupported("to_dict does not print through PolyhedralTermList.to_str_list: the contract has to be restated")
     d = _dict_of(h, out.value, ["input_vars", "output_vars", "assumptions", "guarantees"])
     h.check("C10.compound_to_dict.has_exactly_the_four_fields", d is not None, "%r" % (out.value,))
     if d is None:
